@@ -403,14 +403,16 @@ where
 		let mut tx_f = File::open(tx_file)?;
 		let mut content = String::new();
 		tx_f.read_to_string(&mut content)?;
-		let tx_bin = util::from_hex(&content).unwrap();
+		// a truncated or corrupted file is an error for the caller, not a crash
+		let tx_bin = util::from_hex(&content)
+			.map_err(|e| Error::StoredTx(format!("Unable to decode stored tx {}: {}", uuid, e)))?;
 		Ok(Some(
 			ser::deserialize(
 				&mut &tx_bin[..],
 				ser::ProtocolVersion(1),
 				ser::DeserializationMode::default(),
 			)
-			.unwrap(),
+			.map_err(|e| Error::StoredTx(format!("Unable to read stored tx {}: {}", uuid, e)))?,
 		))
 	}
 
